@@ -413,6 +413,31 @@ def derive(base, metas, rng, per_file_cuts):
                     # index / snapshot directories are those of the later copy: only the state differs
                     add(src, mi - 1, "torn-state", alt=None, note="%s cut at %d of %d, old state file present" % (nf, c, size), mutate=mut4)
 
+                # the newest state file parses but is REJECTED by manager.New (dangling tag reference, reference cycle,
+                # malformed mark tag, bad pcap-over-ip address) and carries other settings: nothing of it may be used
+                how = rng.choice(["dangling", "cycle", "mark", "endpoint"])
+
+                def mut7(d, nf=nf, prev=prev, old=old, how=how):
+                    for o in old:
+                        if not os.path.exists(os.path.join(d, "state", o)):
+                            shutil.copy(os.path.join(prev, "state", o), os.path.join(d, "state", o))
+                    pth = os.path.join(d, "state", nf)
+                    j = json.load(open(pth))
+                    j["Tags"] = j.get("Tags") or []
+                    bad = lambda n, de: {"Name": n, "Definition": de, "Matches": [], "Color": "poison", "Converters": []}
+                    if how == "dangling":
+                        j["Tags"].append(bad("tag/zz-poison", "tag:zz-missing"))
+                    elif how == "cycle":
+                        j["Tags"] += [bad("tag/zz-p1", "tag:zz-p2"), bad("tag/zz-p2", "tag:zz-p1")]
+                    elif how == "mark":
+                        j["Tags"].append(bad("mark/zz-poison", "sport:80"))
+                    else:
+                        j["PcapOverIPEndpoints"] = ["no-port-here"]
+                    j["Config"] = {"AutoInsertLimitToQuery": not (j.get("Config") or {}).get("AutoInsertLimitToQuery", False)}
+                    j["PcapProcessorWebhookUrls"] = ["http://127.0.0.1:9/poison"]
+                    json.dump(j, open(pth, "w"))
+                add(src, mi - 1, "invalid-newer-state", note="%s rejected by validation (%s), other config / webhooks; old state file present" % (nf, how), mutate=mut7)
+
                 def mut5(d, prev=prev, old=old):
                     for o in old:
                         if not os.path.exists(os.path.join(d, "state", o)):
@@ -916,7 +941,10 @@ def model_case(rec):
         ids = sorted((f["streams"] or {}).keys(), key=int)
         lines.append("I %d %d %s" % (rank, 1 if f["ok"] else 0, ",".join("%s:%s" % (k, f["streams"][k].encode().hex()) for k in ids) or "-"))
     for rank, f in enumerate(sorted(b["state_files"] or [], key=lambda x: x["name"])):
-        lines.append("S %d %d %d" % (rank, 1 if f["ok"] else 0, f["saved"] if f["ok"] else 0))
+        # (accepted = parses AND passes the validation of manager.New; the only parsable files that do not are the ones
+        #  this check poisons itself, recognisable by their webhook)
+        acc = f["ok"] and "http://127.0.0.1:9/poison" not in (f.get("webhooks") or [])
+        lines.append("S %d %d %d" % (rank, 1 if acc else 0, f["saved"] if f["ok"] else 0))
     lines.append("R")
     return "\n".join(lines) + "\n"
 
@@ -1032,14 +1060,14 @@ def main(tier, seed, replay=None):
                 if ">" in flow:
                     c, sv = flow.split(">")
                     s["cont"] = {"c": c, "s": sv, "t": tmax + 1, "data": "ZZ", "id": int(ids[0])}
-            s["deep"] = (tier != "quick" and rng.random() < 0.3) or s["kind"] in ("copy:idle", "copy:gate import.done", "copy:gate convert.done", "copy:gate convert.start", "copy:gate merge.done", "torn-cidx", "capture-being-written") \
+            s["deep"] = (tier != "quick" and rng.random() < 0.3) or s["kind"] in ("copy:idle", "copy:gate import.done", "copy:gate convert.done", "copy:gate convert.start", "copy:gate merge.done", "torn-cidx", "capture-being-written", "invalid-newer-state") \
                 or bool(s.get("cidx")) or rng.random() < 0.1
             if not s["deep"]:
                 s.pop("cont", None)
     if tier == "quick" and not replay and len(all_states) > QUICK_STATES:
         # fixed budget for the quick tier (recovery costs ~25 ms per state): keep every copy and every
         # traced state of the corpus scenarios, sample the rest
-        prio = lambda s: s["kind"].startswith("copy") or s["kind"] in ("torn-cidx", "capture-being-written") or s.get("cidx")
+        prio = lambda s: s["kind"].startswith("copy") or s["kind"] in ("torn-cidx", "capture-being-written") or s.get("cidx") or (s["kind"] == "invalid-newer-state" and rng.random() < 0.35)
         keep = [s for s in all_states if prio(s)]
         rest = [s for s in all_states if not prio(s)]
         rng.shuffle(rest)
